@@ -62,6 +62,7 @@ def _run_item(item):
         signal.alarm(int(item.timeout_s * 1.5) + 60)
     except Exception:
         pass
+    E = None
     try:
         fn = item.make()
         E = Engine(timeout_ms=item.solver_ms, max_paths=item.max_paths, deadline=t0 + item.timeout_s)
@@ -79,6 +80,17 @@ def _run_item(item):
         out['functions'] = sorted(funcs)
         out['samples'] = E.samples
         out['cands'] = [c.as_dict() for c in E.candidates]
+    except HardTimeout as e:
+        # the item ran past its hard wall-clock limit (one solver call outlasting its soft timeout, or a loaded machine):
+        # inconclusive, listed under budget_reached; whatever was decided before the limit is kept
+        try:
+            out.update(E.stats())
+            out['samples'] = E.samples
+            out['cands'] = [c.as_dict() for c in E.candidates]
+        except Exception:
+            pass
+        out['budget_hit'] = True
+        out['hard_timeout'] = str(e)[:300]
     except BaseException as e:  # harness error inside an item
         out['error'] = '%s: %s\n%s' % (type(e).__name__, e, traceback.format_exc()[-1500:])
     finally:
